@@ -11,7 +11,15 @@
 (*                                                                         *)
 (* One action per public call (GenerateLoginToken, ValidateToken,          *)
 (* GetUserFromToken) plus the environment: Tick (time passes) and the      *)
-(* attacker / faulty-issuer alterations.                                   *)
+(* attacker / faulty-issuer alterations; and one action for the caller     *)
+(* pattern GetUserFromToken-then-ValidateToken (ValidateRead: the user     *)
+(* validated for is the one the previous call READ from the token).        *)
+(*                                                                         *)
+(* User IDs are opaque byte strings to every rule here: identity is byte   *)
+(* for byte.  The section "user IDs" below names the dimension the         *)
+(* property quantifies over (the ALPHABET of the user ID: which character  *)
+(* class occurs where) and the neighbourhood a user ID has under the       *)
+(* textual transformations a codec between issue and read could apply.     *)
 (***************************************************************************)
 EXTENDS Integers, Sequences, FiniteSets, TLC
 
@@ -46,6 +54,46 @@ AlterKinds == {"flip_sig", "flip_caveat", "flip_id", "truncate", "text_pad",   \
 
 MintKinds == {"mint_no_time", "mint_no_gen", "mint_no_user", "mint_extra_unknown",
               "mint_gen_near", "mint_user_near", "mint_time_near"}
+
+\* --- user IDs ------------------------------------------------------------
+(* "only for the user ID it was issued for, reveals that user ID": for ALL user IDs, i.e. all non-empty byte      *)
+(* strings - the token layer does not restrict the alphabet (Matrix localparts may contain + = / . _ -, historical *)
+(* ones anything; third-party identifiers such as +15551234567 are user IDs to this layer too).  A structured user *)
+(* ID is a FRAME (a full Matrix ID @alicework:example.org or the bare localpart alicework), one MARK - a class -   *)
+(* and the POSITION of the mark.  The classes are the characters that some textual codec treats specially:         *)
+(*   URL escaping (query and path flavours disagree on + ; % introduces an escape, valid or not), separators of    *)
+(*   URLs / forms / caveat texts (/ ? # & = ; : @ , and " = "), JSON and log escaping (quote, backslash, control   *)
+(*   characters, a trailing newline), base64 alphabets (- _ + / =), Unicode (composed / decomposed / astral /      *)
+(*   bytes that are not UTF-8), NUL, and length (longer than one length byte / two length bytes can say).          *)
+(* Model user IDs are NAMES (strings "~frame~class~position"); the harness realises the bytes and asserts that     *)
+(* distinct names give distinct byte strings, so "another user" in the model is another byte string in the run.    *)
+Frames    == {"mxid", "bare"}
+Classes   == {"none",
+              "plus", "space", "pct_plus", "pct_plus_lc", "pct_space", "pct_pct", "pct_bare", "pct_hex", "pct_trunc",
+              "slash", "pct_slash", "question", "hash", "amp", "eq", "semicolon", "colon", "at", "comma", "dot",
+              "cav_sep", "cav_user", "quote", "backslash", "newline", "crlf", "tab", "nul", "del",
+              "b64url", "lt", "nonascii", "nfd", "astral", "notutf8", "bom", "long200", "long300", "long70k"}
+Positions == {"lead", "mid", "trail", "end", "only", "twice"}
+
+\* which (frame, class, position) triples name a user ID: no mark = one ID per frame; after the server name only
+\* where there is a server name; the mark alone is a user ID too (the bare frame: the whole ID is the mark)
+WellPlaced(f, c, p) == /\ (c = "none") => (p = "mid")
+                       /\ (p = "end") => (f = "mxid")
+                       /\ (c \in {"long200", "long300", "long70k"}) => (p = "mid")
+ClassUser(f, c, p) == "~" \o f \o "~" \o c \o "~" \o p
+Placed == {t \in Frames \X Classes \X Positions : WellPlaced(t[1], t[2], t[3])}
+ClassUsers == {ClassUser(t[1], t[2], t[3]) : t \in Placed}
+
+\* the neighbours of a structured user ID: the same frame with the mark replaced by every other class at the same
+\* position (what any character-level transformation - escaping, unescaping, trimming, dropping, folding - of the
+\* mark can turn it into is among them), and the unmarked ID of the frame
+PartsOf == [u \in ClassUsers |-> CHOOSE t \in Placed : ClassUser(t[1], t[2], t[3]) = u]     \* the name read back
+NeighbourTable ==
+    [u \in ClassUsers |->
+        LET t == PartsOf[u]
+        IN ({ClassUser(t[1], c, t[3]) : c \in {c \in Classes : WellPlaced(t[1], c, t[3])}}
+             \cup {ClassUser(t[1], "none", "mid")}) \ {u}]
+Neighbours(u) == NeighbourTable[u]
 
 VARIABLES clock,      \* current instant
           tok,        \* the token in flight (or NoToken)
@@ -144,7 +192,7 @@ ValidateVerdict(t, s, u, now) == SigOK(t, s) /\ CaveatsOK(t.cavs, u, now)
 
 Validate(s, u) ==
     /\ tok # NoToken
-    /\ out.call # "validate"
+    /\ out.call \notin {"validate", "validate_read"}
     /\ out' = [call |-> "validate", secret |-> s, user |-> u, at |-> clock,
                ok |-> ValidateVerdict(tok, s, u, clock)]
     /\ UNCHANGED <<clock, tok, origin, altered>>
@@ -152,8 +200,17 @@ Validate(s, u) ==
 \* --- GetUserFromToken (does not validate) -------------------------------
 GetUser ==
     /\ tok # NoToken
-    /\ out.call \notin {"getuser", "validate"}
+    /\ out.call \notin {"getuser", "validate", "validate_read"}
     /\ out' = [call |-> "getuser", ok |-> tok.parse, user |-> tok.id]
+    /\ UNCHANGED <<clock, tok, origin, altered>>
+
+\* --- the caller pattern: read the user from the token, then validate for THAT user ---------------
+\* (the user argument is not chosen by the environment: it is whatever GetUserFromToken just returned)
+ValidateRead(s) ==
+    /\ tok # NoToken
+    /\ out.call = "getuser" /\ out.ok
+    /\ out' = [call |-> "validate_read", secret |-> s, user |-> out.user, at |-> clock,
+               ok |-> ValidateVerdict(tok, s, out.user, clock)]
     /\ UNCHANGED <<clock, tok, origin, altered>>
 
 Init == /\ clock = T0 /\ tok = NoToken /\ origin = NoToken /\ altered = <<>> /\ out = [call |-> "none"]
@@ -163,6 +220,8 @@ Next == \/ \E s \in Secrets, u \in Users, d \in Durations : Issue(s, u, d)
         \/ \E o \in Offsets : TickTo(o)
         \/ \E s \in Secrets, u \in Users : Validate(s, u)
         \/ GetUser
+        \* (the key dimension of a validation is explored by Validate; what ValidateRead adds is the user READ)
+        \/ tok # NoToken /\ ValidateRead(origin.secret)
         \/ Remint
 
 Spec == Init /\ [][Next]_vars
@@ -173,16 +232,27 @@ Spec == Init /\ [][Next]_vars
 (***************************************************************************)
 Unaltered == altered = <<>>
 
-Sound == (out.call = "validate" /\ out.ok) =>
+Validated == out.call \in {"validate", "validate_read"}
+
+Sound == (Validated /\ out.ok) =>
             /\ out.secret = origin.secret
             /\ out.user = origin.user
             /\ Unaltered
             /\ out.at < origin.at + EffDur(origin.dur)
 
-Complete == (out.call = "validate" /\ Unaltered /\ out.secret = origin.secret
+Complete == (Validated /\ Unaltered /\ out.secret = origin.secret
              /\ out.user = origin.user /\ out.at < origin.at + EffDur(origin.dur)) => out.ok
 
+\* byte for byte: the user ID read is the user ID of the issue, whatever its alphabet
 RevealsUser == (out.call = "getuser" /\ Unaltered) => (out.ok /\ out.user = origin.user)
+
+\* read-then-validate: a genuine, unexpired token validates under its key for the user READ from it (a consequence of
+\* Complete and RevealsUser together; stated on its own because neither call shows it alone), and an accepted
+\* read-then-validate names the user of the issue
+ReadThenValidate ==
+    (out.call = "validate_read") =>
+        /\ (Unaltered /\ out.secret = origin.secret /\ out.at < origin.at + EffDur(origin.dur)) => out.ok
+        /\ out.ok => out.user = origin.user
 
 TypeOK == clock \in Nat /\ Len(altered) <= MaxAlter
 =============================================================================
